@@ -501,3 +501,88 @@ fn fold2_script(b0: bool, b1: bool, idx: usize) {
 #[kani::proof] #[kani::unwind(6)] pub(crate) fn merge_ordered_script_2_2_b5() { merge_ordered_script::<2, 2>(5) }
 #[kani::proof] #[kani::unwind(6)] pub(crate) fn merge_ordered_script_2_2_b6() { merge_ordered_script::<2, 2>(6) }
 #[kani::proof] #[kani::unwind(6)] pub(crate) fn merge_ordered_script_2_2_b7() { merge_ordered_script::<2, 2>(7) }
+
+// ---------------------------------------------------------------------------------------------- keyed hooks, ENUMERATED decisions: MEASURED > 600 s each even with a scripted driver and even over a
+// contract double of FxHashMap (tried and reverted): the cost is in the hook's own Vec<(K, VecDeque)> / drain / collect / extend code, not in the table.  In NO tier.
+/// KeyedStreamHook<_, _, TotalOrder> with two keys (queues of 2 and 1 symbolic items) over the FxHashMap contract double: for each key the
+/// released items are an in-order prefix of that key's queue, tagged with the key; other keys' items are untouched; nothing is lost.
+/// The driver is scripted: `c0`, `c1` are the counts it answers for the two keys (clamped into the requested range), so the
+/// instantiations enumerate every decision the hook can take for these queues.
+struct CountScript { counts: [usize; 2], i: usize }
+impl DynDriver for CountScript {
+    fn depth(&self) -> usize { 0 }
+    fn set_depth(&mut self, _depth: usize) {}
+    fn max_depth(&self) -> usize { usize::MAX }
+    fn gen_variant(&mut self, _variants: usize, _base_case: usize) -> Option<usize> { Some(0) }
+    fn gen_usize(&mut self, min: std::ops::Bound<&usize>, max: std::ops::Bound<&usize>) -> Option<usize> {
+        use std::ops::Bound::*;
+        let lo = match min { Included(m) => *m, Excluded(m) => *m + 1, Unbounded => 0 };
+        let hi = match max { Included(m) => *m, Excluded(m) => *m - 1, Unbounded => usize::MAX };
+        let want = if self.i < 2 { self.counts[self.i] } else { 0 };
+        self.i += 1;
+        Some(if want < lo { lo } else if want > hi { hi } else { want })
+    }
+    fn gen_bool(&mut self, _probability: Option<f32>) -> Option<bool> { Some(false) }
+    fn gen_u8(&mut self, _: std::ops::Bound<&u8>, _: std::ops::Bound<&u8>) -> Option<u8> { unreachable!() }
+    fn gen_i8(&mut self, _: std::ops::Bound<&i8>, _: std::ops::Bound<&i8>) -> Option<i8> { unreachable!() }
+    fn gen_u16(&mut self, _: std::ops::Bound<&u16>, _: std::ops::Bound<&u16>) -> Option<u16> { unreachable!() }
+    fn gen_i16(&mut self, _: std::ops::Bound<&i16>, _: std::ops::Bound<&i16>) -> Option<i16> { unreachable!() }
+    fn gen_u32(&mut self, _: std::ops::Bound<&u32>, _: std::ops::Bound<&u32>) -> Option<u32> { unreachable!() }
+    fn gen_i32(&mut self, _: std::ops::Bound<&i32>, _: std::ops::Bound<&i32>) -> Option<i32> { unreachable!() }
+    fn gen_u64(&mut self, _: std::ops::Bound<&u64>, _: std::ops::Bound<&u64>) -> Option<u64> { unreachable!() }
+    fn gen_i64(&mut self, _: std::ops::Bound<&i64>, _: std::ops::Bound<&i64>) -> Option<i64> { unreachable!() }
+    fn gen_u128(&mut self, _: std::ops::Bound<&u128>, _: std::ops::Bound<&u128>) -> Option<u128> { unreachable!() }
+    fn gen_i128(&mut self, _: std::ops::Bound<&i128>, _: std::ops::Bound<&i128>) -> Option<i128> { unreachable!() }
+    fn gen_isize(&mut self, _: std::ops::Bound<&isize>, _: std::ops::Bound<&isize>) -> Option<isize> { unreachable!() }
+    fn gen_f32(&mut self, _: std::ops::Bound<&f32>, _: std::ops::Bound<&f32>) -> Option<f32> { unreachable!() }
+    fn gen_f64(&mut self, _: std::ops::Bound<&f64>, _: std::ops::Bound<&f64>) -> Option<f64> { unreachable!() }
+    fn gen_char(&mut self, _: std::ops::Bound<&char>, _: std::ops::Bound<&char>) -> Option<char> { unreachable!() }
+    fn gen_from_bytes(&mut self, _hint: &mut dyn FnMut() -> (usize, Option<usize>), _produce: &mut dyn FnMut(&[u8]) -> Option<usize>) -> Option<()> { unreachable!() }
+}
+fn keyed_total_order_script(c0: usize, c1: usize, force: bool) {
+    let (a, b) = (items::<2>(), items::<1>());
+    let mut map: FxHashMap<u8, VecDeque<u8>> = FxHashMap::default();
+    let mut qa = VecDeque::new(); qa.push_back(a[0]); qa.push_back(a[1]);
+    let mut qb = VecDeque::new(); qb.push_back(b[0]);
+    map.insert(7, qa);
+    map.insert(9, qb);
+    let input = Rc::new(RefCell::new(map));
+    let (tx, rx) = unbounded::<(u8, u8)>();
+    fn no_debug_kv(_: &(u8, u8)) -> Option<String> { None }
+    let mut h: KeyedStreamHook<u8, u8, TotalOrder> = KeyedStreamHook { input: input.clone(), to_release: None, output: tx, batch_location: LOC,
+                                                                      format_item_debug: no_debug_kv, _order: std::marker::PhantomData };
+    kani::assert(h.can_make_nontrivial_decision(), "C36:nontrivial_possible_iff_items_queued");
+    let mut d = CountScript { counts: [c0, c1], i: 0 };
+    let r = h.autonomous_decision(&mut Borrowed(&mut d), force);
+    let released: Vec<(u8, u8)> = h.to_release.clone().unwrap();
+    {
+        let m = input.borrow();
+        let (la, lb) = (m.get(&7).unwrap(), m.get(&9).unwrap());
+        // per key: released items of the key, in release order, followed by what is left == the key's original queue
+        let mut ia = 0; let mut ib = 0; let mut i = 0;
+        while i < released.len() {
+            let (k, v) = released[i];
+            if k == 7 { kani::assert(ia < 2 && v == a[ia], "C36:keyed_total_order_releases_a_prefix_per_key"); ia += 1; }
+            else { kani::assert(k == 9 && ib < 1 && v == b[ib], "C36:keyed_total_order_releases_a_prefix_per_key"); ib += 1; }
+            i += 1;
+        }
+        kani::assert(ia + la.len() == 2 && ib + lb.len() == 1, "C36:decision_conserves_item_count");
+        let mut j = 0;
+        while j < la.len() { kani::assert(la[j] == a[ia + j], "C36:keyed_total_order_releases_a_prefix_per_key"); j += 1; }
+        if lb.len() == 1 { kani::assert(lb[0] == b[0], "C36:keyed_total_order_releases_a_prefix_per_key"); }
+    }
+    kani::assert(r == !released.is_empty() && h.current_decision() == Some(r), "C36:result_reports_whether_something_is_released");
+    kani::assert(!force || r, "C36:forced_decision_is_nontrivial");
+    h.release_decision(None);
+    kani::assert(rx.hvx_len() == released.len(), "C36:release_sends_exactly_the_decided_batch_in_order");
+    let mut i = 0;
+    while i < released.len() { kani::assert(rx.hvx_get(i) == released[i], "C36:release_sends_exactly_the_decided_batch_in_order"); i += 1; }
+    std::mem::forget(h); std::mem::forget(rx); std::mem::forget(input);
+}
+#[kani::proof] #[kani::unwind(6)] pub(crate) fn deep_keyed_total_order_script_0_0() { keyed_total_order_script(0, 0, false) }
+#[kani::proof] #[kani::unwind(6)] pub(crate) fn deep_keyed_total_order_script_0_0_forced() { keyed_total_order_script(0, 0, true) }
+#[kani::proof] #[kani::unwind(6)] pub(crate) fn deep_keyed_total_order_script_1_0() { keyed_total_order_script(1, 0, false) }
+#[kani::proof] #[kani::unwind(6)] pub(crate) fn deep_keyed_total_order_script_2_1() { keyed_total_order_script(2, 1, false) }
+#[kani::proof] #[kani::unwind(6)] pub(crate) fn deep_keyed_total_order_script_0_1() { keyed_total_order_script(0, 1, kani::any()) }
+#[kani::proof] #[kani::unwind(6)] pub(crate) fn deep_keyed_total_order_script_1_1() { keyed_total_order_script(1, 1, kani::any()) }
+#[kani::proof] #[kani::unwind(6)] pub(crate) fn deep_keyed_total_order_script_2_0() { keyed_total_order_script(2, 0, kani::any()) }
